@@ -139,7 +139,7 @@ func runC13(c *Ctx, r *Report) {
 	c13r9(c, r)
 	c13r10(c, r)
 	c08r13(c, r) // a result published for a snapshot is computed for that snapshot's revision
-	c01r3(c, r) // a cached list narrower than the query's true result is a wrong result of the search
+	c01r3(c, r)  // a cached list narrower than the query's true result is a wrong result of the search
 	c13r8(c, r)
 	c06r6(c, r) // items never change after they have been read
 	c06r1(c, r) // items never change after they have been read
